@@ -614,7 +614,10 @@ def _convert_columns_to_dots(scope: Scope, resolver: Resolver) -> None:
                 or not scope.is_correlated_subquery
             )
         ):
-            root, *parts = column.parts
+            # The parts are copied because the same column can be visited more than once (e.g. an
+            # UNNEST operand belongs to two scopes) and its nodes must not be moved out of the
+            # Dot that was built for it the first time around
+            root, *parts = (part.copy() for part in column.parts)
 
             if isinstance(root, exp.Identifier) and root.name in scope.selected_sources:
                 # The struct is already qualified, but we still need to change the AST
